@@ -11,6 +11,8 @@ from pathlib import Path
 
 sys.path.insert(0, str(Path(__file__).resolve().parent))
 import core  # noqa: E402
+import logging
+logging.disable(logging.CRITICAL)
 
 
 def main():
